@@ -23,6 +23,9 @@ def _run_shard(args):
     modname, shard, tier, seed = args
     env.worker_init()
     mod = importlib.import_module(modname)
+    # numba threads: 1 unless the property is about thread counts (must be set before numba is imported,
+    # which happens lazily when the shard first imports tangermeme)
+    os.environ["NUMBA_NUM_THREADS"] = str(shard.get("numba_threads", getattr(mod, "NUMBA_THREADS", 1)))
     try:
         return mod.run_shard(shard, tier, seed)
     except Exception:
